@@ -28,7 +28,7 @@ ASSUMPTIONS = [
     "float results compared with dtype-scaled tolerance (exact for integer/bool results); qr/svd by reconstruction",
     "the processes executor is sampled on a subset of recipes because of its start-up cost",
 ]
-NSHARDS = {"quick": 16, "thorough": 32}
+NSHARDS = {"quick": 16, "thorough": 16}
 PER_SHARD = {"quick": 110, "thorough": 700}
 
 
@@ -74,7 +74,7 @@ def replay(rep, workdir):
 
 def finalize(tier, merged):
     c = merged["counters"]
-    floor = 800 if tier == "quick" else 12000
+    floor = 800 if tier == "quick" else 6000
     missing = sorted(set(optable.expected_ops()) - set(merged["hist"].get("ops", {})))
     return {
         "rule": RULE,
